@@ -188,6 +188,8 @@ func c17alphabet(full bool) []Choice {
 			cs = append(cs, txB(fmt.Sprintf("dao_transfer(by=k%d,%d)", s, amt), chain.TxSpec{Msg: "dao_transfer", From: s, To: 0, Amount: amt}))
 			cs = append(cs, txB(fmt.Sprintf("dao_burn(by=k%d,%d)", s, amt), chain.TxSpec{Msg: "dao_burn", From: s, Amount: amt}))
 		}
+		// a transfer from the DAO account to the DAO account itself moves nothing
+		cs = append(cs, txB(fmt.Sprintf("dao_transfer(by=k%d,to the DAO account,250)", s), chain.TxSpec{Msg: "dao_transfer", From: s, To: chain.DAOIndex, Amount: 250}))
 		if full {
 			cs = append(cs, txB(fmt.Sprintf("dao_unknown_action(by=k%d)", s), chain.TxSpec{Msg: "dao_transfer", From: s, To: 0, Amount: 1, Val: "dao_steal"}))
 			cs = append(cs, txB(fmt.Sprintf("dao_transfer(by=k%d,0)", s), chain.TxSpec{Msg: "dao_transfer", From: s, To: 0, Amount: 0}))
@@ -321,7 +323,11 @@ func RunGovHistory(cfg chain.Config, prelude, blocks []chain.Block) HistResult {
 					report("dao|beyond-balance-accepted", fmt.Sprintf("%s at height %d returned code 0 although the DAO holds %s", t, dd.Height+1, before.DAO))
 				case action == "dao_transfer":
 					expect[chain.DAOAddr] = amt.Neg()
-					expect[string(chain.Addr(t.To))] = amt
+					if prev, has := expect[string(chain.Addr(t.To))]; has {
+						expect[string(chain.Addr(t.To))] = prev.Add(amt) // the DAO account as its own recipient
+					} else {
+						expect[string(chain.Addr(t.To))] = amt
+					}
 				case action == "dao_burn":
 					expect[chain.DAOAddr] = amt.Neg()
 					wantSupply = amt.Neg()
